@@ -718,9 +718,17 @@ class Emitter:
         ctx = self.cur
         ti = self.T(qt(d))
         name = self.uniq_local(d['name'])
-        ctx.locals[d['id']] = (name, ti)
         init = [c for c in d.get('inner', []) if 'kind' in c and not c['kind'].endswith('Comment')]
         init = init[0] if init else None
+        if ti.kind in ('opq', 'fn') and init is not None:
+            # `auto` variable whose deduced type clang prints through an alias it cannot
+            # desugar: take the type of the initialiser
+            t2 = self.T(qt(init))
+            if t2.kind not in ('opq', 'fn', 'void'):
+                wasref = ti.ref or qt_sugar(d).strip().endswith('&')
+                ti = self._copy(t2)
+                ti.ref = wasref
+        ctx.locals[d['id']] = (name, ti)
         static = d.get('storageClass') == 'static'
         if static:
             # function-local static with an initialiser that does not depend on
@@ -1104,6 +1112,12 @@ class Emitter:
             return c
         ti = self.T(qt(vd))
         self.globals[c] = None
+        if ti.kind == 'opq':
+            # an object kept opaque (tag objects such as prop::maximum_qos): a distinct handle
+            self.opq_global_count = getattr(self, 'opq_global_count', 100) + 1
+            self.globals[c] = 'opq_t %s;' % c
+            self.global_init.append('%s = %d;' % (c, self.opq_global_count))
+            return c
         init = [x for x in vd.get('inner', []) if 'kind' in x and not x['kind'].endswith('Comment')]
         prev = self.cur
         self.cur = FnCtx(self, vd, '__cxx_global_init')
@@ -1530,7 +1544,15 @@ class Emitter:
             cls = sanitize(self.short_type(oti.elem.name or oti.elem.c))
         o = []
         if obj is not None:
-            o = [self.e(obj)] if (cnode.get('isArrow') or oti.kind == 'opq') else [self.addr(obj)]
+            y = obj
+            while y.get('kind') in ('ImplicitCastExpr', 'ParenExpr') and y.get('castKind', 'NoOp') in ('DerivedToBase', 'UncheckedDerivedToBase', 'NoOp'):
+                y = y['inner'][0]
+            yti = self.T(qt(y))
+            if oti.kind == 'opq' and yti.kind == 'rec' and not cnode.get('isArrow'):
+                # repository object used through a library base class: its address is the handle
+                o = ['((opq_t)(long)%s)' % self.addr(y)]
+            else:
+                o = [self.e(obj)] if (cnode.get('isArrow') or oti.kind == 'opq') else [self.addr(obj)]
         return self.stub_call(n, rd, args, name='%s__%s' % (cls, sanitize(cnode.get('name', 'm'))), objs=o)
 
     def e_CXXOperatorCallExpr(self, n):
